@@ -24,13 +24,95 @@ type variantResult struct {
 	Note    string   `json:"note,omitempty"`
 }
 
-var violLine = regexp.MustCompile(`^(VIOLATED|UNDECIDED) (R[0-9.]+)\|`)
+
+// analysePatched applies one patch to a scratch copy of the working tree and
+// runs the quick rule set of the property on the copy in a subprocess. It
+// returns the `rule|key` of every obligation reported as violated/undecided.
+func analysePatched(pf, id, repo, verif, self string) (applied bool, note string, fired []string) {
+	tmp, err := os.MkdirTemp("", "dblint-variant-")
+	if err != nil {
+		return false, err.Error(), nil
+	}
+	defer os.RemoveAll(tmp)
+	cp := exec.Command("rsync", "-a", "--exclude=.git", repo+"/", tmp+"/")
+	if b, err := cp.CombinedOutput(); err != nil {
+		return false, "copy failed: " + string(b), nil
+	}
+	ap := exec.Command("patch", "-p1", "-s", "-f", "--no-backup-if-mismatch", "-i", pf)
+	ap.Dir = tmp
+	if b, err := ap.CombinedOutput(); err != nil {
+		return false, "patch does not apply to the current tree: " + firstLine(string(b)), nil
+	}
+	vv, _ := os.MkdirTemp("", "dblint-variant-out-")
+	defer os.RemoveAll(vv)
+	// the subprocess reads the real known findings so that recorded findings do not count as detection
+	if b, err := os.ReadFile(filepath.Join(verif, "known_findings.json")); err == nil {
+		os.WriteFile(filepath.Join(vv, "known_findings.json"), b, 0o644)
+	}
+	cmd := exec.Command(self, "check", "-property", id, "-tier", "quick", "-repo", tmp, "-verif", vv)
+	var buf bytes.Buffer
+	cmd.Stdout, cmd.Stderr = &buf, &buf
+	cmd.Run()
+	seen := map[string]bool{}
+	sc := bufio.NewScanner(&buf)
+	sc.Buffer(make([]byte, 1<<20), 1<<20)
+	for sc.Scan() {
+		if m := violKey.FindStringSubmatch(sc.Text()); m != nil {
+			seen[m[2]] = true
+		}
+		if strings.HasPrefix(sc.Text(), "ANALYSIS-ERROR") {
+			seen["ANALYSIS-ERROR|"] = true
+		}
+	}
+	for r := range seen {
+		fired = append(fired, r)
+	}
+	sort.Strings(fired)
+	return true, "", fired
+}
+
+var violKey = regexp.MustCompile(`^(VIOLATED|UNDECIDED) (R[0-9.]+\|.*?) at [^ ]+: `)
+
+func rulesOf(keys []string) []string {
+	seen := map[string]bool{}
+	var out []string
+	for _, k := range keys {
+		r := k
+		if i := strings.IndexByte(k, '|'); i >= 0 {
+			r = k[:i]
+		}
+		if !seen[r] {
+			seen[r] = true
+			out = append(out, r)
+		}
+	}
+	sort.Strings(out)
+	return out
+}
+
+// inParallel runs f(i) for i in [0,n) on up to 8 workers.
+func inParallel(n int, f func(i int)) {
+	sem := make(chan struct{}, 8)
+	done := make(chan struct{})
+	for i := 0; i < n; i++ {
+		go func(i int) {
+			sem <- struct{}{}
+			f(i)
+			<-sem
+			done <- struct{}{}
+		}(i)
+	}
+	for i := 0; i < n; i++ {
+		<-done
+	}
+}
 
 // runVariants applies every seeded change / own variant of the property to
 // a scratch copy of the working tree and runs the quick rule set on it in a
 // subprocess. It tests the checker, never the repository: nothing it finds
-// becomes a VIOLATION line.
-func runVariants(id, repo, verif string) []variantResult {
+// becomes a VIOLATION line. base holds the obligations that are not
+// discharged on the unpatched tree (they do not count as detection).
+func runVariants(id, repo, verif string, base map[string]bool) []variantResult {
 	var patches []string
 	m1, _ := filepath.Glob(filepath.Join(verif, "seeded", id+"-*", "patch.diff"))
 	m2, _ := filepath.Glob(filepath.Join(verif, "variants", id, "*.diff"))
@@ -40,63 +122,80 @@ func runVariants(id, repo, verif string) []variantResult {
 	if err != nil {
 		return nil
 	}
-	var out []variantResult
-	for _, pf := range patches {
+	out := make([]variantResult, len(patches))
+	inParallel(len(patches), func(i int) {
+		pf := patches[i]
 		name := filepath.Base(filepath.Dir(pf))
 		if strings.HasSuffix(filepath.Dir(pf), filepath.Join("variants", id)) {
 			name = id + "/" + filepath.Base(pf)
 		}
 		res := variantResult{Name: name}
-		tmp, err := os.MkdirTemp("", "dblint-variant-")
-		if err != nil {
-			res.Note = err.Error()
-			out = append(out, res)
-			continue
+		applied, note, fired := analysePatched(pf, id, repo, verif, self)
+		res.Applied, res.Note = applied, note
+		if !applied && note != "" {
+			res.Note = note + " (a fix: commit rewrote these lines)"
 		}
-		func() {
-			defer os.RemoveAll(tmp)
-			cp := exec.Command("rsync", "-a", "--exclude=.git", repo+"/", tmp+"/")
-			if b, err := cp.CombinedOutput(); err != nil {
-				res.Note = "copy failed: " + string(b)
-				return
+		var extra []string
+		for _, k := range fired {
+			if !base[k] {
+				extra = append(extra, k)
 			}
-			ap := exec.Command("patch", "-p1", "-s", "-f", "--no-backup-if-mismatch", "-i", pf)
-			ap.Dir = tmp
-			if b, err := ap.CombinedOutput(); err != nil {
-				res.Note = "patch does not apply to the current tree (a fix: commit rewrote these lines): " + firstLine(string(b))
-				return
-			}
-			res.Applied = true
-			vv, _ := os.MkdirTemp("", "dblint-variant-out-")
-			defer os.RemoveAll(vv)
-			// the subprocess reads the real known findings so that recorded findings do not count as detection
-			if b, err := os.ReadFile(filepath.Join(verif, "known_findings.json")); err == nil {
-				os.WriteFile(filepath.Join(vv, "known_findings.json"), b, 0o644)
-			}
-			cmd := exec.Command(self, "check", "-property", id, "-tier", "quick", "-repo", tmp, "-verif", vv)
-			var buf bytes.Buffer
-			cmd.Stdout, cmd.Stderr = &buf, &buf
-			cmd.Run()
-			seen := map[string]bool{}
-			sc := bufio.NewScanner(&buf)
-			sc.Buffer(make([]byte, 1<<20), 1<<20)
-			for sc.Scan() {
-				if m := violLine.FindStringSubmatch(sc.Text()); m != nil {
-					seen[m[2]] = true
-				}
-				if strings.HasPrefix(sc.Text(), "ANALYSIS-ERROR") {
-					seen["ANALYSIS-ERROR"] = true
-				}
-			}
-			for r := range seen {
-				res.Rules = append(res.Rules, r)
-			}
-			sort.Strings(res.Rules)
-			res.Armed = len(res.Rules) > 0
-		}()
-		out = append(out, res)
-	}
+		}
+		res.Rules = rulesOf(extra)
+		res.Armed = len(res.Rules) > 0
+		out[i] = res
+	})
 	return out
+}
+
+// neutralResult summarises the run over the behaviour-preserving
+// refactorings kept in /verif/neutral: every one of them must leave the
+// property's check exactly as it is on the unpatched tree.
+type neutralResult struct {
+	Total       int                 `json:"refactorings"`
+	Applied     int                 `json:"applied"`
+	Silent      int                 `json:"silent"`
+	FalseAlarms map[string][]string `json:"false_alarms,omitempty"`
+	Skipped     []string            `json:"not_applicable_to_this_tree,omitempty"`
+}
+
+func runNeutral(id, repo, verif string, base map[string]bool) neutralResult {
+	patches, _ := filepath.Glob(filepath.Join(verif, "neutral", "*", "patch.diff"))
+	sort.Strings(patches)
+	res := neutralResult{Total: len(patches), FalseAlarms: map[string][]string{}}
+	self, err := os.Executable()
+	if err != nil {
+		return res
+	}
+	type one struct {
+		applied bool
+		extra   []string
+	}
+	rs := make([]one, len(patches))
+	inParallel(len(patches), func(i int) {
+		applied, _, fired := analysePatched(patches[i], id, repo, verif, self)
+		var extra []string
+		for _, k := range fired {
+			if !base[k] {
+				extra = append(extra, k)
+			}
+		}
+		rs[i] = one{applied, extra}
+	})
+	for i, r := range rs {
+		name := filepath.Base(filepath.Dir(patches[i]))
+		switch {
+		case !r.applied:
+			res.Skipped = append(res.Skipped, name)
+		case len(r.extra) == 0:
+			res.Applied++
+			res.Silent++
+		default:
+			res.Applied++
+			res.FalseAlarms[name] = r.extra
+		}
+	}
+	return res
 }
 
 func firstLine(s string) string {
